@@ -130,7 +130,7 @@ Fixpoint max_depth (d m : N) (ops : list op) : N :=
   end.
 
 Definition nsec3_example : option record :=
-  option_map (fun e => typed_record e [[97]] 0 1 [VUint 1; VUint 0; VUint 10; VSalt []; VWord [48]; VTypes [1; 46]])
+  option_map (fun e => typed_record e [[97]] 0 1 [VUint 1; VUint 0; VUint 10; VSalt []; VB32 [0]; VTypes [1; 46]])
              (find_schema type_schemas 50).
 
 Lemma nsec3_nests_two_deep :
@@ -186,3 +186,18 @@ Example ex_ip6_roundtrip :
     [[0;0;0;0;0;0;0;0]; [0;0;0;0;0;0;0;1]; [8193;3512;0;0;0;0;0;1]; [1;0;0;2;0;0;0;3]; [1;0;0;0;2;0;0;0]; [0;0;0;0;0;65535;258;772];
      [0;0;0;0;0;0;258;772]; [1;2;3;4;5;6;7;8]; [1;0;3;0;5;0;7;0]; [0;1;0;0;1;0;0;0]; [65535;65535;65535;65535;65535;65535;65535;0]] = true.
 Proof. vm_compute. reflexivity. Qed.
+
+(* known finding empty_field_NSEC3: an empty next-owner hash is written as an empty token in
+   mid-record and the record does not read back (wf_field FB32 requires a non-empty hash) *)
+Lemma nsec3_empty_next_owner_refuted :
+  c06_rec 0 50 [] 0 1 [VUint 1; VUint 0; VUint 10; VSalt []; VB32 []; VTypes [1]]
+  = Ok ([46; 32; 48; 32; 73; 78; 32; 78; 83; 69; 67; 51; 32; 49; 32; 48; 32; 49; 48; 32; 45; 32; 32; 65; 10], Err 2).
+Proof. vm_compute. reflexivity. Qed.
+
+(* the structural T1 anchors (each is `true` exactly when its source pattern still matches; a
+   changed source makes the extractor fail and this file does not build) *)
+Lemma t1_structural_anchors :
+  sym_display_checked && parens_is_counter && scan_name_rejects_empty_label && scan_name_at_is_origin &&
+  charstr_entry_requires_token && record_order_owner_ttl_class_type && generic_lower_hex_with_spaces &&
+  svcb_key_charset_inclusive && uint_scan_add_checked && svcb_values_escaped_with_parens = true.
+Proof. reflexivity. Qed.
